@@ -412,11 +412,14 @@ def conc_shard(binp, mode, acceptor, seed, first, runs, extra, tmpdir, idx):
     try:
         for line in open(monp):
             line = line.rstrip("\n")
+            f3 = line.split(" ", 2)
+            if len(f3) < 3 or not f3[1].lstrip("-").isdigit():
+                continue  # a line cut short by a harness that was killed (reported as a crash above)
             if line.startswith("RUN "):
-                _, k, d = line.split(" ", 2)
+                _, k, d = f3
                 o["progs"][int(k)] = d
             elif line.startswith("MON "):
-                _, k, rest = line.split(" ", 2)
+                _, k, rest = f3
                 if rest.startswith("ok"):
                     o["mon_ok"] += 1
                 else:
